@@ -148,6 +148,10 @@ func genC01(g engine.G) *engine.Case {
 		// generated converters (ConverterGen) next to the supplied ones
 		sc.Gens = engine.GenGens(g, engine.Palette{Types: []int{0, 1, 2, 3, 4, 5}}, false)
 	}
+	if g.Pct(10) {
+		// one subtype label becomes its upper-case twin: a different label
+		engine.CaseTwinSubtype(g, sc)
+	}
 	sc.JoinTyped = g.Pct(10)
 	sc.RawConverters = g.Pct(15)
 	if t := &sc.Target; g.Pct(10) && !t.HasErr && !t.Built && !t.Identity && t.OutForm == engine.FormPos {
